@@ -303,6 +303,15 @@ def run(prop, tier, seed, known):
                 for a, b in (('P_est', 'R_est'), ('P_occ.75', 'R_occ.75'), ('P_3', 'R_3')):
                     if abs(pv[a] - sv[b]) > 1e-9 or abs(pv[b] - sv[a]) > 1e-9:
                         fails.append('pattern swap: %s=%r vs %s=%r' % (a, pv[a], b, sv[b]))
+                # standard (exact-match) scores with a user tolerance under which "matches" is not transitive: still independent of the reference order
+                pa_ = [[(0.0, 60.0), (1.0, 62.0)]]
+                pb_ = [[(0.0, 60.0), (1.5, 62.0)]]
+                px_ = [[(0.0, 60.0), (1.25, 62.0)]]
+                py_ = [[(0.0, 60.0), (1.75, 62.0)]]
+                s1_ = guard('pattern.standard_FPR', lambda: pattern.standard_FPR([pa_, pb_], [px_, py_], tol=0.3))
+                s2_ = guard('pattern.standard_FPR', lambda: pattern.standard_FPR([pb_, pa_], [px_, py_], tol=0.3))
+                if s1_ is not None and s2_ is not None and any(abs(float(a_) - float(b_)) > 1e-9 for a_, b_ in zip(s1_, s2_)):
+                    fails.append('pattern standard_FPR(tol=0.3) changes under reordering the reference patterns: %s vs %s' % (tuple(float(x_) for x_ in s1_), tuple(float(x_) for x_ in s2_)))
                 # reference pattern order and a common time shift are immaterial
                 rp2 = list(reversed(rp))
                 sh = 3.0
@@ -427,8 +436,12 @@ def run(prop, tier, seed, known):
             tri_ = np.array([[0.5 * j_, 0.5 * j_ + 0.4] for j_ in range(kn_)])
             trp_ = np.array([rng.choice([220.0, 261.6255653005986, 329.6275569128699, 440.0]) for _ in range(kn_)])
             tep_ = trp_ * 2.0 ** (np.array([rng.choice([49.97, 50.03, -49.97, -50.03, 0.0, 20.0]) for _ in range(kn_)]) / 1200.0)
+            if rng.random() < 0.3:
+                # high notes whose estimate is uniformly sharp by less than the tolerance: the two pitch ranges are disjoint in Hz
+                trp_ = np.full(kn_, rng.choice([2093.004522404789, 1760.0, 3520.0]))
+                tep_ = trp_ * 2.0 ** (np.array([rng.choice([43.0, 45.0, 47.0]) for _ in range(kn_)]) / 1200.0)
             t0_ = guard('transcription.precision_recall_f1_overlap', lambda: T.precision_recall_f1_overlap(tri_, trp_, tri_.copy(), tep_))
-            for fac_ in (2.0 ** (1 / 12.0), 1.5, 2.0 ** (7 / 12.0), 3.0, 0.5):
+            for fac_ in (2.0 ** (1 / 12.0), 1.5, 2.0 ** (7 / 12.0), 3.0, 0.5, 0.125):
                 t1_ = guard('transcription.precision_recall_f1_overlap (scaled pitches)', lambda: T.precision_recall_f1_overlap(tri_, trp_ * fac_, tri_.copy(), tep_ * fac_))
                 if t0_ is not None and t1_ is not None and any(abs(a_ - b_) > 1e-9 for a_, b_ in zip(t0_, t1_)):
                     fails.append('octave/transposition: multiplying all note pitches by %s changes the transcription scores: %s vs %s (ref %s, est %s)'
